@@ -20,6 +20,8 @@ import (
 	abci "github.com/cometbft/cometbft/abci/types"
 	cmtproto "github.com/cometbft/cometbft/proto/tendermint/types"
 
+	sdkmath "cosmossdk.io/math"
+
 	sdk "github.com/cosmos/cosmos-sdk/types"
 
 	band "github.com/bandprotocol/chain/v3/app"
@@ -27,6 +29,7 @@ import (
 	bandtsstypes "github.com/bandprotocol/chain/v3/x/bandtss/types"
 	feedstypes "github.com/bandprotocol/chain/v3/x/feeds/types"
 	oracletypes "github.com/bandprotocol/chain/v3/x/oracle/types"
+	restaketypes "github.com/bandprotocol/chain/v3/x/restake/types"
 	tsstypes "github.com/bandprotocol/chain/v3/x/tss/types"
 	tunneltypes "github.com/bandprotocol/chain/v3/x/tunnel/types"
 	"github.com/bandprotocol/chain/v3/zzverif/engine"
@@ -151,6 +154,19 @@ func candidates(f reflect.StructField) []reflect.Value {
 	case reflect.Slice:
 		if f.Type == reflect.TypeOf(sdk.Coins{}) {
 			out = append(out, reflect.ValueOf(sdk.Coins{}), reflect.ValueOf(sdk.NewCoins(sdk.NewInt64Coin("uband", math.MaxInt64))), reflect.ValueOf(sdk.NewCoins(sdk.NewInt64Coin("uband", 1))))
+			// coin lists as a governance proposal can spell them: several denoms in order, out of order, repeated, a zero
+			// and a negative amount (the last four are not valid sdk.Coins; whatever validation lets through must not halt)
+			mk := func(d string, a int64) sdk.Coin { return sdk.Coin{Denom: d, Amount: sdkmath.NewInt(a)} }
+			out = append(out,
+				reflect.ValueOf(sdk.Coins{mk("aband", 5), mk("uband", 10000)}),
+				reflect.ValueOf(sdk.Coins{mk("uband", 10000), mk("aband", 5)}),
+				reflect.ValueOf(sdk.Coins{mk("uband", 1), mk("uband", 2)}),
+				reflect.ValueOf(sdk.Coins{mk("uband", 0)}),
+				reflect.ValueOf(sdk.Coins{mk("uband", -1)}))
+		}
+		if f.Type == reflect.TypeOf([]string{}) {
+			out = append(out, reflect.ValueOf([]string{}), reflect.ValueOf([]string{"uband"}), reflect.ValueOf([]string{"uband", "aband"}),
+				reflect.ValueOf([]string{"uband", "uband"}), reflect.ValueOf([]string{""}))
 		}
 	}
 	return out
@@ -177,6 +193,7 @@ func corners(app *band.BandApp, ctx sdk.Context) []corner {
 	add("bandtss", app.BandtssKeeper.GetParams(ctx), func(p any) sdk.Msg { return bandtsstypes.NewMsgUpdateParams(auth, p.(bandtsstypes.Params)) })
 	add("feeds", app.FeedsKeeper.GetParams(ctx), func(p any) sdk.Msg { return feedstypes.NewMsgUpdateParams(auth, p.(feedstypes.Params)) })
 	add("tunnel", app.TunnelKeeper.GetParams(ctx), func(p any) sdk.Msg { return tunneltypes.NewMsgUpdateParams(auth, p.(tunneltypes.Params)) })
+	add("restake", app.RestakeKeeper.GetParams(ctx), func(p any) sdk.Msg { return restaketypes.NewMsgUpdateParams(auth, p.(restaketypes.Params)) })
 	return out
 }
 
